@@ -140,6 +140,37 @@ def run_io(sess, fs: SimFS, plan: dict | None, fn, dry=None):
     return res, ctx
 
 
+def tie_order(got_rows, want_rows, name, what, lg, lw, rel: float = 0.0) -> str:
+    """Entries on one StartTime take effect in listing order (the last one stays in force): where the reference side has
+    several entries on exactly one whole-millisecond time, the other side lists the same values in the same order.
+    Only judged when every time on the reference side is a whole number (writing truncates to milliseconds, which can
+    create ties of its own)."""
+    def seqs(rows):
+        d = {}
+        for r in rows:
+            t, v = r.get("offset"), r.get(name)
+            if not (isinstance(t, (int, float)) and not isinstance(t, bool) and t == t) or not (isinstance(v, (int, float)) and not isinstance(v, bool) and v == v):
+                return None
+            d.setdefault(float(t), []).append(float(v))
+        return d
+
+    w, g = seqs(want_rows), seqs(got_rows)
+    if w is None or g is None:
+        return ""
+    import math
+
+    for t, vs in w.items():
+        if not float(t).is_integer() or any(u != t and math.trunc(u) == t for u in w):
+            continue  # a fractional time, or another time that truncates onto this millisecond: not a tie of the chart's own
+        def same(a, b):
+            return len(a) == len(b) and all(x == y or abs(x - y) <= rel * max(abs(x), abs(y)) for x, y in zip(a, b))
+
+        if len(vs) > 1 and not same(sorted(vs)[:1] * len(vs), sorted(vs)) and g.get(t) is not None and same(sorted(g[t]), sorted(vs)) and not same(g[t], vs):
+            return f"{what}: on StartTime {t:g} {lw} {vs[:6]} (in force afterwards: {vs[-1]}), {lg} {g[t][:6]} (in force afterwards: {g[t][-1]})"
+    return ""
+
+
+
 def _frames_of(kind, obj) -> set:
     """identities of the DataFrames behind an object (used only for a yes/no sharing test, never traced)"""
     try:
@@ -320,6 +351,11 @@ class IoWrite(OpSpec):
             if not structural and why and any(why.startswith(x) for x in ("LNOBJ id", "sample table", "header", "sample not bytes", "tempo value with more")):
                 out.probes.append("write_outside_writer_domain:" + why.split(" ")[0])
                 why = ""
+        count_only = False
+        if why == "a long note contains another object of its lane" and not frame_only and not c09:
+            # C05 "no two objects are merged or dropped" still applies: every hit is one object of the file, every hold two
+            count_only, why = True, ""
+            out.probes.append("write_overlapping_long_note_count_only")
         if why:
             out.skipped = True
             out.note = ("io.write", "out-of-domain", why)
@@ -401,6 +437,14 @@ class IoWrite(OpSpec):
             if not isinstance(e, RefError):
                 raise
             out.fail(prop, inv, g.tag_write_failure(a, layout) + f"the written {op['game']} file is not well-formed: {e}")
+            fs.lineage.pop(path, None)
+            return out
+        if count_only:
+            n_file = len(den["hits"]) + 2 * len(den["holds"])
+            n_chart = len(a["lists"]["hits"]["rows"]) + 2 * len(a["lists"]["holds"]["rows"])
+            if n_file != n_chart:
+                out.fail(prop, inv, f"objects are not conserved: the written file holds {n_file} note objects, the chart has {n_chart} "
+                                    f"({len(a['lists']['hits']['rows'])} hits, {len(a['lists']['holds']['rows'])} long notes of two objects each)")
             fs.lineage.pop(path, None)
             return out
         if not c09:
